@@ -112,6 +112,33 @@ class Session(object):
             self.evals[id(v)] = self.member.value(xv)
         return g, v
 
+    def oracle_through_sum(self, x, pts):
+        from PEPit.functions import SmoothConvexFunction
+        if getattr(self, "aux", None) is None:
+            self.aux = self.pep.declare_function(SmoothConvexFunction, L=2.0)
+            self.aux_Q = 2.0 * np.diag([self.rng.uniform(0.0, 1.0) for _ in range(self.dim)])      # f_aux(x) = x'Qx/2, spectrum in [0, 2]
+            self.sum = self.aux + self.f
+        if x not in pts:
+            pts.append(x)
+        xv = self.pvalue(x)
+        n_aux = len(self.aux.list_of_points)
+        n_f = len(self.f.list_of_points)
+        G, V = self.sum.oracle(x)
+        for (px, pg, pv) in self.aux.list_of_points[n_aux:]:
+            if pg.get_is_leaf() and id(pg) not in self.pvals:
+                self.bind_point(pg, self.aux_Q @ self.pvalue(px))
+            if pv.get_is_leaf() and id(pv) not in self.evals:
+                self.evals[id(pv)] = 0.5 * float(self.pvalue(px) @ self.aux_Q @ self.pvalue(px))
+        g_real = self.member.grad(xv, self.rng)
+        if len(self.f.list_of_points) == n_f:
+            # f already held a sample at x (differentiable: reused): the sum is determined by its terms
+            return
+        if G.get_is_leaf() and id(G) not in self.pvals:
+            self.bind_point(G, self.aux_Q @ xv + g_real)
+        if V.get_is_leaf() and id(V) not in self.evals:
+            self.evals[id(V)] = 0.5 * float(xv @ self.aux_Q @ xv) + self.member.value(xv)
+        self._bind_new()
+
     def run_events(self, n_events):
         rng, m = self.rng, self.member
         pts = []
@@ -149,6 +176,11 @@ class Session(object):
                 pts.append(x)
                 self.oracle(x)
                 kinds.append("eval:combination")
+            elif r < 0.66 and m.kind == "function" and not m.restricted_domain and self.cls != "BlockSmoothConvexFunction":
+                # the sample arrives through a sum  F = f_aux + f  evaluated as a whole (f receives what is left of F's sample
+                # once f_aux has answered): it is still an ordinary sample of f
+                self.oracle_through_sum(rng.choice(pts) if rng.random() < 0.4 else self.new_point(m.domain_point(rng, scale)), pts)
+                kinds.append("eval:through_sum")
             elif r < 0.72:
                 x = rng.choice(pts)
                 self.oracle(x)          # repeated: reuse for differentiable classes, a new subgradient otherwise
@@ -371,8 +403,13 @@ def run_shard(spec):
         if cls == "BlockSmoothConvexFunction":
             d = rng.choice([1, 2, 3])
             params = {"L": [rng.choice([1.0, 2.0, 0.5, 10.0]) for _ in range(d)]}
+            if rng.random() < 0.25:
+                params = {"L": [rng.choice([1, 2, 4, 10]) for _ in range(d)]}      # integers, as in the class docstring's example
         else:
             params = edge_params(cls, rng, real_params(sampler(rng)))
+            if rng.random() < 0.15:
+                # python ints where the value is integral (L=1, mu=0, M=2 ...): a documented way of writing the parameters
+                params = {k_: (int(v_) if isinstance(v_, float) and abs(v_) < 1e6 and v_ == int(v_) else v_) for k_, v_ in params.items()}
         # the class parameters are documented attributes: a user may update them after the declaration (before the first
         # solve, or between two solves of a parameter sweep); the constraints must be those of the CURRENT parameters
         stricter = None
